@@ -80,6 +80,36 @@ static std::string handle(const std::string& op, const Args& a)
         auto v = bytes_of(out); v.push_back(prbs.state);
         return join(v);
     }
+    if (op == "codec2") {        // codec2 <320 samples> -> 16 bytes, with a FRESH codec state per call sequence handled by caller: stateful!
+        static struct CODEC2* c2 = nullptr;
+        if (a.size() == 1 && a[0] == -1) { if (c2) ::codec2_destroy(c2); c2 = ::codec2_create(CODEC2_MODE_3200); return "ok"; }
+        if (!c2) c2 = ::codec2_create(CODEC2_MODE_3200);
+        audio_frame_t au; au.fill(0);
+        for (size_t i = 0; i < 320 && i < a.size(); ++i) au[i] = int16_t(a[i]);
+        auto r = encode(c2, au);
+        std::vector<long long> v; for (auto x : r) v.push_back(x);
+        return join(v);
+    }
+    if (op == "mod_transmit") {  // mod_transmit <bitstream> <invert> <can> <nsrc> src.. <ndst> dst.. samples... : the whole main() data path in-process
+        bitstream = a.at(0) != 0; invert = a.at(1) != 0; can = int8_t(a.at(2));
+        size_t ns = size_t(a.at(3)); std::string src, dst;
+        for (size_t i = 0; i < ns; ++i) src.push_back(char(a.at(4 + i)));
+        size_t nd = size_t(a.at(4 + ns));
+        for (size_t i = 0; i < nd; ++i) dst.push_back(char(a.at(5 + ns + i)));
+        size_t off = 5 + ns + nd;
+        auto out = capture([&]{
+            send_preamble();
+            auto lsf = send_lsf(src, dst);
+            running = true;
+            queue_t queue;
+            std::thread thd([&queue, &lsf](){ transmit(queue, lsf); });
+            for (size_t i = off; i < a.size(); ++i) if (!queue.put(int16_t(a[i]), std::chrono::seconds(300))) break;
+            running = false;
+            queue.close();
+            thd.join();
+        });
+        return join(bytes_of(out));
+    }
     if (op == "mod_preamble") { bitstream = a.at(0) != 0; invert = a.at(1) != 0; return join(bytes_of(capture([&]{ send_preamble(); }))); }
     if (op == "mod_eot") { bitstream = a.at(0) != 0; invert = a.at(1) != 0; return join(bytes_of(capture([&]{ output_eot(); }))); }
     return "bad-op";
